@@ -120,6 +120,11 @@ pub struct Staking {
     /// fault `redelegation_blocked`: staking reports can_redelegate = 0 for these
     /// source validators and rejects Redelegate from them
     pub redelegation_blocked: BTreeSet<String>,
+    /// jailed validators: they keep every delegation and accept staking messages, but are not
+    /// part of the active set: `AllValidators` omits them and `Validator { address }` answers
+    /// None, as cosmwasm-std documents both queries
+    #[serde(default)]
+    pub jailed: BTreeSet<String>,
     pub unbonding_time: u64,
     /// buggify: answer AllDelegations in reverse validator order
     pub reverse_query_order: bool,
